@@ -47,6 +47,22 @@ def run_bringup(ncp_v, path_kind="serial", second_reset=False, fault=None):
                 return data
             i = counters["h2n"]
             counters["h2n"] += 1
+            if d == "h2n" and kind.startswith("drop") and kind != "drop":
+                # the same DATA frame lost k times in a row (the frame and its next k-1 retransmissions): ASH transmits a
+                # frame up to five times, so up to four consecutive losses are repaired
+                b0 = bytes(data).lstrip(b"\x1a")[:1]
+                is_data = bool(b0) and b0[0] < 0x80
+                if i == idx:
+                    out["fault_hit"] = "RST" if b0 == b"\xc0" else "other"
+                    if is_data:
+                        counters["multi"] = int(kind[4:]) - 1
+                        counters["multi_frm"] = b0[0] & 0x70
+                        out["fault_hit"] = f"DATA frame lost {kind[4:]} times in a row"
+                    return None
+                if counters.get("multi", 0) > 0 and is_data and (b0[0] & 0x70) == counters["multi_frm"]:
+                    counters["multi"] -= 1
+                    return None
+                return data
             if d == "h2n" and i == idx:
                 out["fault_hit"] = "RST" if bytes(data).lstrip(b"\x1a").startswith(b"\xc0") else "other"
                 if kind == "drop":
@@ -175,6 +191,12 @@ class Check(PropertyCheck):
                 for k in (0, 1):
                     for kind in ("stale0", "stalecur"):
                         cases.append({"v": v, "path": path, "second": True, "fault": ("rst", k, kind)})
+        # the same frame lost two, three and four times in a row (the fifth transmission gets through)
+        for v in ((4, 13) if tier == "quick" else (4, 7, 8, 13, 14, 15)):
+            for path in (("serial", "socket-absent") if tier == "quick" else ("serial", "socket-seen", "socket-absent")):
+                for idx in range(0, 5 if tier == "quick" else 8):
+                    for k in (2, 3, 4):
+                        cases.append({"v": v, "path": path, "second": idx % 2 == 1, "fault": ("h2n", idx, f"drop{k}")})
         nf = 200 if tier == "quick" else 2500
         for _ in range(nf):
             v = rng.choice(versions)
